@@ -3,7 +3,7 @@
 // Engine E1: the real Listen (API -> listen -> ut0311.Listen: receive loop, dispatcher goroutine,
 // shutdown goroutine, unbuffered event pipe) runs on the simulated network while datagrams of an
 // enumerated class sequence arrive and the stop signal is injected after every prefix. Two layers:
-// (a) content — every sequence over the full 13-class alphabet, preemption bound 0 (all forced
+// (a) content — every sequence over the full 14-class alphabet, preemption bound 0 (all forced
 // switch orders); (b) scheduling — every sequence over {valid, v6.62, malformed} under ALL
 // interleavings of receive loop, dispatcher, shutdown goroutine, stopper and caller within the
 // preemption bound; (c) start/stop cycles on the same listen address.
@@ -33,7 +33,7 @@ const (
 	lport  = 60001
 )
 
-var classes = []string{"valid", "valid-v6.62", "valid-index-0", "len63", "len65", "serial-0", "wrong-function", "protocol-00", "bad-boolean", "bad-bcd-timestamp", "bad-bcd-sysdate", "bad-bcd-systime", "len0"}
+var classes = []string{"valid", "valid-v6.62", "valid-index-0", "len63", "len65", "serial-0", "wrong-function", "protocol-00", "bad-boolean", "bad-bcd-timestamp", "bad-bcd-sysdate", "bad-bcd-systime", "len0", "len1100"}
 
 var statusOp = spec.OpByName("GetStatus")
 
@@ -65,6 +65,8 @@ func datagram(class string, seq int) []byte {
 		d = append(d, 0)
 	case "len0":
 		d = []byte{}
+	case "len1100": // a well-formed event followed by 1036 more bytes
+		d = append(d, make([]byte, 1100-64)...)
 	case "serial-0":
 		binary.LittleEndian.PutUint32(d[4:8], 0)
 	case "wrong-function":
